@@ -125,9 +125,12 @@ fn fault_one<B: FA, H: ElementHasher<BaseField = B> + Send + Sync>(c: &FaultCase
         let acol = pick_index(c.col_sel, aux.cols.len());
         // regular aux columns: the rule is applied on every row, so rows 0..=n-k are constrained
         // (row r is `current` of step r or `next` of step r-1); row 0 is also asserted
-        let invalid = step <= n - k;
-        obs.label(if invalid { "aux-fault:invalidating" } else { "aux-fault:harmless" });
-        let fault = AuxFault { col: acol, row: step, delta: (delta as u32).max(1) };
+        // every third aux fault transforms the whole column consistently with the transition rule, so
+        // that ONLY the boundary assertion of that column is violated
+        let whole = c.col_sel % 3 == 0;
+        let invalid = whole || step <= n - k;
+        obs.label(if whole { "aux-fault:assertion-only" } else if invalid { "aux-fault:invalidating" } else { "aux-fault:harmless" });
+        let fault = AuxFault { col: acol, row: step, delta: (delta as u32).max(1), whole_column: whole };
         let accepted = prove_and_verify::<B, H>(&desc, &inst.trace, options, Some(fault), obs)?;
         obs.nontrivial_if(invalid);
         if invalid && accepted {
@@ -196,7 +199,7 @@ impl SubCheck for CellFault {
         "a valid GenAir instance (C01 family, smaller sizes) plus one fault: a non-zero delta added to one cell; step drawn from {0, 1, n-k-1, n-k, n-k+1, n-1} / asserted steps of every assertion / random, column from {0, w-1, asserted, random}; or a fault in an auxiliary-segment cell; oracle = reference validity predicate; non-trivial = the fault makes the trace invalid (and an answer was obtained from the verifier or prover)".into()
     }
     fn required_labels(&self, _t: Tier) -> Vec<String> {
-        ["fault:trace-invalid", "fault:trace-still-valid", "step=last-enforced", "step=n-k", "step=asserted", "step=0", "aux-fault:invalidating"].iter().map(|s| s.to_string()).collect()
+        ["fault:trace-invalid", "fault:trace-still-valid", "step=last-enforced", "step=n-k", "step=asserted", "step=0", "aux-fault:invalidating", "aux-fault:assertion-only"].iter().map(|s| s.to_string()).collect()
     }
     fn strategy(&self, tier: Tier) -> BoxedStrategy<FaultCase> {
         (shape_strategy(&small_params(tier)), any::<u16>(), any::<u16>(), prop_oneof![Just(X(1)), any::<u128>().prop_map(X)], prop::bool::weighted(0.2))
